@@ -280,6 +280,31 @@ pub fn negative_table() -> Vec<Negative> {
             }
         }
     }
+    // members of a struct that is not an lvalue (a call result, a conditional over structs, a cast): not assignable, not
+    // bindable to out / inout; the twin goes through a variable
+    for (what, bad_t, good_t) in [
+        ("call-result", "make().x", "q.x"),
+        ("call-result-nested", "make().uv.y", "q.uv.y"),
+        ("call-result-inner-struct", "make_outer().inner.x", "o.inner.x"),
+        ("conditional", "(c ? q : r).x", "q.x"),
+        ("cast", "((P)q).x", "q.x"),
+        ("call-result-array-element", "make().a[1]", "q.a[1]"),
+    ] {
+        for (opname, op) in [("assign", "TGT = 2.0f;"), ("add-assign", "TGT += 2.0f;"), ("pre-increment", "++TGT;"), ("post-decrement", "TGT--;"), ("out-argument", "sink_out(TGT);"), ("inout-argument", "sink_inout(TGT);")] {
+            let make = |target: &str| -> String {
+                format!(
+                    "struct P {{ float x; float2 uv; float a[2]; }};\nstruct Outer {{ P inner; }};\nP make() {{ P p; p.x = 1.0f; p.uv = float2(0.0f, 0.0f); p.a[0] = 0.0f; p.a[1] = 0.0f; return p; }}\nOuter make_outer() {{ Outer o; o.inner = make(); return o; }}\nvoid sink_out(out float o) {{ o = 1.0f; }}\nvoid sink_inout(inout float o) {{ o += 1.0f; }}\nvoid test()\n{{\n    P q = make();\n    P r = make();\n    Outer o = make_outer();\n    bool c = true;\n    {}\n}}\n",
+                    op.replace("TGT", target)
+                )
+            };
+            let family = if opname.ends_with("argument") { "pass-member-of-struct-rvalue" } else { "write-to-member-of-struct-rvalue" };
+            out.push(Negative {
+                class: leak(format!("{}:{}:{}", family, what, opname)),
+                bad: make(bad_t),
+                twin: make(good_t),
+            });
+        }
+    }
     // named components of a matrix that has no such row / column (the zero based `_mRC` and the one based `_RC` spellings), read,
     // written and passed as out argument; the twin names the first component
     for (rows, cols) in [(2usize, 3usize), (3, 2), (2, 4), (4, 2), (4, 3), (3, 4), (1, 3), (3, 1), (2, 2), (3, 3)] {
